@@ -148,7 +148,12 @@ impl fmt::Display for KNumber {
 
 impl Hash for KNumber {
     fn hash<H: Hasher>(&self, state: &mut H) {
-        state.write_u64(self.to_bits())
+        // Numbers that compare equal must hash equally (`1 == 1.0`, `0.0 == -0.0`, and mixed
+        // comparisons go through f64), so hash the f64 value, written as an integer when integral.
+        let f = f64::from(*self);
+        let i = f as i64;
+        let bits = if i as f64 == f { i as u64 } else { f.to_bits() };
+        state.write_u64(bits)
     }
 }
 
